@@ -125,6 +125,7 @@ class Ctx:
         self.bools = {p for p, t in spec['params'] if t == 'bool'}
         self.objs = {p: t[4:] for p, t in spec['params'] if t.startswith('obj:')}
         self.opts = set()           # local variables holding Optional constructor results
+        self.stored = 0             # > 0 while translating statements that follow a store to a field of self
         self.loops = []             # auxiliary loop definitions (text)
         self.nloops = 0
         self.raises = False
@@ -426,6 +427,10 @@ def block(ctx, stmts, ind, loop=None):
         name = exc.func.id if isinstance(exc, ast.Call) and isinstance(exc.func, ast.Name) else (exc.id if isinstance(exc, ast.Name) else None)
         if name not in EXC:
             raise Untranslatable('raise of %r' % name)
+        if ctx.stored:
+            # the translation is functional: an exception carries no state, so "stored, then raised" (a partially
+            # applied update) would silently look like "raised" - refuse instead of hiding it
+            raise Untranslatable('raise after a store to a field of self (partial update on an error path)')
         return pad + '.error .%s' % EXC[name]
     if isinstance(s, ast.Break):
         if loop is None:
@@ -444,7 +449,13 @@ def block(ctx, stmts, ind, loop=None):
             fld = {'_value': 'val', '_prefixlen': 'plen'}.get(tgt.attr)
             if fld is None or fld not in KINDS[ctx.kind][1]:
                 raise Untranslatable('store to self.%s' % tgt.attr)
-            return '%slet %s : Int := %s\n%s' % (pad, fld, ival(ctx, val), block(ctx, rest, ind, loop))
+            rhs = ival(ctx, val)
+            ctx.stored += 1
+            try:
+                tail = block(ctx, rest, ind, loop)
+            finally:
+                ctx.stored -= 1
+            return '%slet %s : Int := %s\n%s' % (pad, fld, rhs, tail)
         if not isinstance(tgt, ast.Name):
             raise Untranslatable('assignment target')
         v = tgt.id
